@@ -365,4 +365,116 @@ Section Rev.
       split; [exact Ht|]. split; [exact H1|]. split; [exact H2|]. split; [lia | exact H4].
   Qed.
 
+  (* ---------- one iteration of the safe loop, arbitrary input ---------- *)
+  Definition top_post (s : dstate) (bs rout : list Z) (out : dout) : Prop :=
+    match out with
+    | Err _ => True
+    | Done s' =>
+        exists tok (r : list Z) ll (r1 lits : list Z),
+          bs = tok :: r /\ read_len (tok / 16) r = Some (ll, r1) /\ take (Z.to_nat ll) r1 = Some (lits, []) /\
+          op s' = op s + ll /\ op s' <= oend /\ out_at (vget (dm s')) (op s') (rev lits ++ rout)
+    | Cont f s' =>
+        f = false /\
+        exists tok (r : list Z) ll (r1 lits : list Z) o1 o2 (r3 : list Z) ml (r4 : list Z),
+          bs = tok :: r /\ read_len (tok / 16) r = Some (ll, r1) /\
+          take (Z.to_nat ll) r1 = Some (lits, o1 :: o2 :: r3) /\ read_len (tok mod 16) r3 = Some (ml, r4) /\
+          ip s' + Z.of_nat (length r4) = iend /\ (length r4 < length bs)%nat /\
+          seq_ok (op s) rout lits (o1 + 256 * o2) ml s'
+    end.
+
+  Lemma safe_top_cases s (bs rout : list Z) :
+    src_at srcm (ip s) bs -> bytes bs -> ip s + Z.of_nat (length bs) = iend -> 0 <= ip s < iend ->
+    0 <= op s -> out_at (vget (dm s)) (op s) rout -> avail (op s) rout ->
+    top_post s bs rout (safe_top false dict srcm iend oend lowPrefix rlow dictm dictSize s).
+  Proof.
+    intros Hs Hb Hie Hip Hop O Hav.
+    destruct bs as [|tok r]; [cbn [length] in Hie; lia|].
+    destruct (bytes_cons _ _ Hb) as [Htok Hbr].
+    destruct (src_at_cons _ _ _ _ Hs) as [Htokm Hsr].
+    destruct (nibbles tok Htok) as [Hn1 Hn2].
+    cbn [length] in Hie.
+    unfold safe_top. cbv zeta. rewrite Htokm.
+    (* the exits through safe_lit *)
+    assert (HL : forall p1 kf ll (r1 : list Z), read_len (tok / 16) r = Some (ll, r1) ->
+               src_at srcm p1 r1 -> bytes r1 -> p1 + Z.of_nat (length r1) = iend -> 0 <= p1 -> 0 <= ll ->
+               top_post s (tok :: r) rout
+                 (safe_lit false dict srcm iend oend lowPrefix rlow dictm dictSize (mkD p1 (op s) (dm s) kf) tok ll)).
+    { intros p1 kf ll r1 Hrl Hs1 Hb1 Hie1 Hp1 Hll.
+      pose proof (safe_lit_cases p1 (op s) (dm s) kf tok r1 rout ll Hs1 Hb1 Hie1 Hp1 Htok Hll Hop O Hav) as HC.
+      destruct (safe_lit false dict srcm iend oend lowPrefix rlow dictm dictSize (mkD p1 (op s) (dm s) kf) tok ll) as [f s'|s'|s'];
+        cbn [lit_post top_post] in *; [| | exact I].
+      - destruct HC as (Hf & lits & o1 & o2 & r3 & ml & r4 & H1 & H2 & H3 & H4 & H5).
+        split; [exact Hf|]. exists tok, r, ll, r1, lits, o1, o2, r3, ml, r4.
+        split; [reflexivity|]. split; [exact Hrl|]. split; [exact H1|]. split; [exact H2|].
+        destruct (take_spec _ _ _ _ H1) as [Er1 Hl]. unfold byte in *.
+        assert (length r1 = (length lits + S (S (length r3)))%nat) by (rewrite Er1, app_length; reflexivity).
+        apply read_len_shorter in Hrl. cbn [length].
+        split; [lia|]. split; [lia | exact H5].
+      - destruct HC as (lits & H1 & H2 & H3 & H4).
+        exists tok, r, ll, r1, lits. repeat split; assumption. }
+    destruct (negb (tok / 16 =? RUN_MASK) && ((ip s + 1 <? shortiend iend) && (op s <=? shortoend oend))) eqn:Esc; cbv beta iota.
+    - (* two-stage shortcut *)
+      assert (Hlt15 : tok / 16 < 15) by fin.
+      assert (Hrl : read_len (tok / 16) r = Some (tok / 16, r)).
+      { unfold read_len. assert (E : (tok / 16 =? 15) = false) by lia. rewrite E. reflexivity. }
+      destruct (take_total (Z.to_nat (tok / 16)) r) as (lits & r2 & Ht & Hr & Hlen); [fin|].
+      assert (Hr2 : (3 <= length r2)%nat) by (subst r; rewrite app_length in Hie; fin).
+      destruct r2 as [|o1 [|o2 r3]]; try (cbn [length] in Hr2; lia).
+      assert (Ell : tok / 16 = Z.of_nat (length lits)) by lia.
+      rewrite Hr in Hsr, Hbr. destruct (src_at_app _ _ _ _ Hsr) as [Hsl Hs2]. destruct (bytes_app _ _ Hbr) as [_ Hb2].
+      destruct (bytes_cons _ _ Hb2) as [Ho1 Hb3]. destruct (bytes_cons _ _ Hb3) as [Ho2 Hb4].
+      rewrite Ell. unfold byte in *. rewrite (readLE16_src _ _ _ _ _ Hs2).
+      set (m1 := blit srcm (ip s + 1) (dm s) (op s) 16).
+      assert (O1 : out_at (vget m1) (op s + Z.of_nat (length lits)) (rev lits ++ rout)).
+      { apply lits_out_v with (m := dm s); try assumption.
+        - apply blit_same_below.
+        - apply (blit_lits srcm); [exact Hsl | lia]. }
+      assert (Hlenr : length r = (length lits + S (S (length r3)))%nat) by (rewrite Hr, app_length; reflexivity).
+      destruct (negb (tok mod 16 =? ML_MASK) && (o1 + 256 * o2 >=? 8) &&
+                (is_prefix64k dict || (op s + Z.of_nat (length lits) - (o1 + 256 * o2) >=? lowPrefix))) eqn:E18; cbv beta iota.
+      + (* 18-byte copy *)
+        assert (Hlt15' : tok mod 16 < 15) by fin.
+        assert (Hrl2 : read_len (tok mod 16) r3 = Some (tok mod 16, r3)).
+        { unfold read_len. assert (E : (tok mod 16 =? 15) = false) by lia. rewrite E. reflexivity. }
+        cbn [top_post ip op dm]. split; [reflexivity|].
+        exists tok, r, (tok / 16), r, lits, o1, o2, r3, (tok mod 16), r3.
+        split; [reflexivity|]. split; [exact Hrl|]. split; [exact Ht|]. split; [exact Hrl2|].
+        cbn [length]. split; [lia|]. split; [lia|].
+        assert (Hmatge : lowPrefix <= op s + Z.of_nat (length lits) - (o1 + 256 * o2)).
+        { destruct (is_prefix64k dict) eqn:E64; [specialize (Hp64 eq_refl); lia | fin]. }
+        pose proof (hroom_range dict dictSize) as Hhr.
+        destruct (copy18_lz m1 (op s + Z.of_nat (length lits)) (o1 + 256 * o2)) as [S R]; [fin|].
+        apply (seq_ok_intro (op s) m1); try assumption; try lia.
+        intros H1o. cbn [op dm]. split; [fin|]. split; [exact S|]. split.
+        * apply lzrec_v; [|lia|lia]. eapply lzrec_weaken; [exact R | lia | fin].
+        * split; [lia | fin].
+      + (* general match path *)
+        pose proof (after_cases (ip s + 1 + Z.of_nat (length lits)) (op s) m1
+                      (ok s && rd_src iend (ip s) 1 && rd_src iend (ip s + 1) 16 && wr oend (op s) 16 &&
+                       rd_src iend (ip s + 1 + Z.of_nat (length lits)) 2)
+                      (tok mod 16) o1 o2 r3 rout lits Hs2 Hb2) as HA.
+        destruct (copy_match_lbl false dict srcm iend oend lowPrefix rlow dictm dictSize
+                    (mkD (ip s + 1 + Z.of_nat (length lits) + 2) (op s + Z.of_nat (length lits)) m1 _) (o1 + 256 * o2) (tok mod 16)) as [f s'|s'|s'];
+          [ | exfalso; apply HA; try assumption; cbn [length]; lia | exact I ].
+        destruct HA as (Hf & ml & r4 & H1 & H2 & H3 & H4); try assumption; try (cbn [length]; lia).
+        cbn [top_post]. split; [exact Hf|].
+        exists tok, r, (tok / 16), r, lits, o1, o2, r3, ml, r4.
+        split; [reflexivity|]. split; [exact Hrl|]. split; [exact Ht|]. split; [exact H1|].
+        cbn [length]. split; [lia|]. split; [lia | exact H4].
+    - destruct (tok / 16 =? RUN_MASK) eqn:E15; cbv beta iota.
+      + (* long literal run *)
+        pose proof (rvl_rev r (ip s + 1) (iend - RUN_MASK) true (ok s && rd_src iend (ip s) 1) Hsr ltac:(lia) ltac:(fin)) as HR.
+        destruct (rvl srcm iend (ip s + 1) (iend - RUN_MASK) true (ok s && rd_src iend (ip s) 1)) as [[[addl|] p'] k']; [|exact I].
+        destruct HR as (v & r1 & H1 & H2 & H3 & H4 & H5).
+        assert (Hrl : read_len (tok / 16) r = Some (v, r1)).
+        { unfold read_len. assert (E : (tok / 16 =? 15) = true) by fin. rewrite E. exact H1. }
+        destruct (read_len_suffix srcm iend _ _ _ _ (ip s + 1) Hn1 Hrl Hbr Hsr) as (_ & Hv & _ & Hs1 & Hb1).
+        replace (tok / 16 + addl) with v by fin.
+        apply (HL p' k' v r1 Hrl); try assumption; try lia.
+        * rewrite H3. exact Hs1.
+      + assert (Hrl : read_len (tok / 16) r = Some (tok / 16, r)).
+        { unfold read_len. assert (E : (tok / 16 =? 15) = false) by fin. rewrite E. reflexivity. }
+        apply (HL (ip s + 1) _ (tok / 16) r Hrl); try assumption; lia.
+  Qed.
+
 End Rev.
